@@ -246,3 +246,53 @@ fn nodes_into_order(mut nodes: IndexMap<NaiveDateTime, Number>, ad: ADOrder, id:
         }
     }
 }
+
+/// Verification hooks: thin public wrappers around the Python-facing methods above.
+#[cfg(feature = "verif_hooks")]
+impl Curve {
+    #[allow(clippy::too_many_arguments)]
+    pub(crate) fn verif_new(
+        nodes: IndexMap<NaiveDateTime, Number>,
+        interpolator: &str,
+        ad: ADOrder,
+        id: String,
+        convention: Convention,
+        modifier: Modifier,
+        calendar: CalType,
+        index_base: Option<f64>,
+    ) -> PyResult<Self> {
+        let interpolator = match interpolator {
+            "log_linear" => CurveInterpolator::LogLinear(LogLinearInterpolator::new()),
+            "linear" => CurveInterpolator::Linear(LinearInterpolator::new()),
+            "linear_zero_rate" => CurveInterpolator::LinearZeroRate(LinearZeroRateInterpolator::new()),
+            "flat_forward" => CurveInterpolator::FlatForward(FlatForwardInterpolator::new()),
+            "flat_backward" => CurveInterpolator::FlatBackward(FlatBackwardInterpolator::new()),
+            _ => CurveInterpolator::Null(NullInterpolator::new()),
+        };
+        Self::new_py(nodes, interpolator, ad, id, convention, modifier, calendar, index_base)
+    }
+    pub(crate) fn verif_value(&self, date: NaiveDateTime) -> Number {
+        self.__getitem__(date)
+    }
+    pub(crate) fn verif_index_value(&self, date: NaiveDateTime) -> PyResult<Number> {
+        self.index_value_py(date)
+    }
+    pub(crate) fn verif_set_ad_order(&mut self, ad: ADOrder) {
+        let _ = self.set_ad_order(ad);
+    }
+    pub(crate) fn verif_nodes(&self) -> IndexMap<NaiveDateTime, Number> {
+        self.nodes()
+    }
+    pub(crate) fn verif_ad(&self) -> ADOrder {
+        self.ad()
+    }
+    pub(crate) fn verif_node_index(&self, date_timestamp: i64) -> usize {
+        self.inner.node_index(date_timestamp)
+    }
+    pub(crate) fn verif_eq(&self, other: &Curve) -> bool {
+        self.__eq__(other.clone())
+    }
+    pub(crate) fn verif_to_json(&self) -> PyResult<String> {
+        self.to_json_py()
+    }
+}
